@@ -52,6 +52,118 @@ DIR_CB_OLD = """            d.addCallback(lambda ignored, child=child, childpath
                                                       found))
 """
 
+# ---- the traversal rewritten as one inlineCallbacks method plus a helper that splits the new children
+SEED_OLD = """        found = set([self.get_verify_cap()])
+        d = self._deep_traverse_dirnode(self, [], walker, monitor, found)
+"""
+SEED_NEW = """        d = self._deep_traverse_dirnode(self, [], walker, monitor, set())
+"""
+TRAV_OLD = """    def _deep_traverse_dirnode(self, node, path, walker, monitor, found):
+        # process this directory, then walk its children
+        monitor.raise_if_cancelled()
+        d = defer.maybeDeferred(walker.add_node, node, path)
+        d.addCallback(lambda ignored: node.list())
+        d.addCallback(self._deep_traverse_dirnode_children, node, path,
+                      walker, monitor, found)
+        return d
+
+    def _deep_traverse_dirnode_children(self, children, parent, path,
+                                        walker, monitor, found):
+        monitor.raise_if_cancelled()
+        d = defer.maybeDeferred(walker.enter_directory, parent, children)
+        # we process file-like children first, so we can drop their FileNode
+        # objects as quickly as possible. Tests suggest that a FileNode (held
+        # in the client's nodecache) consumes about 2440 bytes. dirnodes (not
+        # in the nodecache) seem to consume about 2000 bytes.
+        dirkids = []
+        filekids = []
+        for name, (child, metadata) in sorted(children.items()):
+            childpath = path + [name]
+            if isinstance(child, UnknownNode):
+                walker.add_node(child, childpath)
+                continue
+            verifier = child.get_verify_cap()
+            # allow LIT files (for which verifier==None) to be processed
+            if (verifier is not None) and (verifier in found):
+                continue
+            found.add(verifier)
+            if IDirectoryNode.providedBy(child):
+                dirkids.append( (child, childpath) )
+            else:
+                filekids.append( (child, childpath) )
+        for i, (child, childpath) in enumerate(filekids):
+            d.addCallback(lambda ignored, child=child, childpath=childpath:
+                          walker.add_node(child, childpath))
+            # to work around the Deferred tail-recursion problem
+            # (specifically the defer.succeed flavor) requires us to avoid
+            # doing more than 158 LIT files in a row. We insert a turn break
+            # once every 100 files (LIT or CHK) to preserve some stack space
+            # for other code. This is a different expression of the same
+            # Twisted problem as in #237.
+            if i % 100 == 99:
+                d.addCallback(lambda ignored: fireEventually())
+        for (child, childpath) in dirkids:
+            d.addCallback(lambda ignored, child=child, childpath=childpath:
+                          self._deep_traverse_dirnode(child, childpath,
+                                                      walker, monitor,
+                                                      found))
+        return d
+"""
+
+# faithful: every admitted child is recorded on discovery; the step also records the node it is given (the root)
+TRAV_GEN = """    @defer.inlineCallbacks
+    def _deep_traverse_dirnode(self, node, path, walker, monitor, found):
+        # process this directory, then walk its children. 'found' holds the
+        # verifier-caps of everything we have handed to the walker so far.
+        monitor.raise_if_cancelled()
+        found.add(node.get_verify_cap())
+        yield walker.add_node(node, path)
+        children = yield node.list()
+        monitor.raise_if_cancelled()
+        yield walker.enter_directory(node, children)
+        # we process file-like children first, so we can drop their FileNode
+        # objects as quickly as possible. Tests suggest that a FileNode (held
+        # in the client's nodecache) consumes about 2440 bytes. dirnodes (not
+        # in the nodecache) seem to consume about 2000 bytes.
+        filekids, dirkids = self._deep_traverse_new_children(children, path,
+                                                             walker, found)
+        for i, (child, childpath) in enumerate(filekids):
+            yield walker.add_node(child, childpath)
+            # to work around the Deferred tail-recursion problem
+            # (specifically the defer.succeed flavor) requires us to avoid
+            # doing more than 158 LIT files in a row. We insert a turn break
+            # once every 100 files (LIT or CHK) to preserve some stack space
+            # for other code. This is a different expression of the same
+            # Twisted problem as in #237.
+            if i % 100 == 99:
+                yield fireEventually()
+        for (child, childpath) in dirkids:
+            yield self._deep_traverse_dirnode(child, childpath,
+                                              walker, monitor, found)
+
+    def _deep_traverse_new_children(self, children, path, walker, found):
+        # split the children we have not seen before into (filekids,
+        # dirkids), each a list of (child, childpath) in name order.
+        # UnknownNodes are reported to the walker right away.
+        filekids = []
+        dirkids = []
+        for name, (child, metadata) in sorted(children.items()):
+            childpath = path + [name]
+            if isinstance(child, UnknownNode):
+                walker.add_node(child, childpath)
+                continue
+            verifier = child.get_verify_cap()
+            # allow LIT files (for which verifier==None) to be processed
+            if (verifier is not None) and (verifier in found):
+                continue
+            found.add(verifier)
+            if IDirectoryNode.providedBy(child):
+                dirkids.append( (child, childpath) )
+            else:
+                filekids.append( (child, childpath) )
+        return filekids, dirkids
+"""
+
 MUTANTS = [
     # ---- C21.1 classification of each child
     M("lit-guard-dropped", F,
@@ -277,8 +389,85 @@ MUTANTS = [
               "        if len(dirkids) == 0:\n            return d\n"
               "        for (child, childpath) in dirkids:\n            d.addCallback(lambda ignored, child=child, childpath=childpath:\n")]),
     # ---- vanished anchors
-    M("vanish-children-walk", F, "    def _deep_traverse_dirnode_children(self, children, parent, path,",
-      "    def _walk_children(self, children, parent, path,", "ANALYSIS-ERROR",
+    # the traversal functions are found by role: a consistent rename is not a change
+    M("benign-children-walk-renamed", F, "    def _deep_traverse_dirnode_children(self, children, parent, path,",
+      "    def _walk_children(self, children, parent, path,", None,
       edits=[(F, "        d.addCallback(self._deep_traverse_dirnode_children, node, path,", "        d.addCallback(self._walk_children, node, path,")]),
+    M("vanish-deep-traverse", F, "    def deep_traverse(self, walker):", "    def deep_traverse_from(self, walker):", "ANALYSIS-ERROR"),
+    M("vanish-children-walk-unreachable", F,
+      "        d.addCallback(self._deep_traverse_dirnode_children, node, path,\n                      walker, monitor, found)\n",
+      "        d.addCallback(lambda children: None)\n", "ANALYSIS-ERROR"),
     M("vanish-deepstats-add-node", S, "    def add_node(self, node, childpath):", "    def add_object(self, node, childpath):", "ANALYSIS-ERROR"),
+]
+
+SLIP_OLD = """            found.add(verifier)
+            if IDirectoryNode.providedBy(child):
+                dirkids.append( (child, childpath) )
+            else:
+                filekids.append( (child, childpath) )
+"""
+# directories recorded when entered (like the root) instead of when discovered; files still on discovery
+SLIP_DIRS_ON_ENTRY = """            if IDirectoryNode.providedBy(child):
+                dirkids.append( (child, childpath) )
+            else:
+                found.add(verifier)
+                filekids.append( (child, childpath) )
+"""
+GEN_EDIT = [(F, TRAV_OLD, TRAV_GEN)]
+
+MUTANTS += [
+    # ---- round 6: the same traversal as an inlineCallbacks method + a splitting helper (C21-I); C21.9
+    M("benign-generator-refactor", F, SEED_OLD, SEED_NEW, None, edits=GEN_EDIT),
+    M("benign-generator-refactor-seeded-set-kept", F, TRAV_OLD, TRAV_GEN.replace(
+        "        found.add(node.get_verify_cap())\n", ""), None),
+    M("generator-refactor-dirs-recorded-on-entry", F, SEED_OLD, SEED_NEW, "C21.9",
+      edits=[(F, TRAV_OLD, TRAV_GEN.replace(SLIP_OLD, SLIP_DIRS_ON_ENTRY))]),
+    M("generator-refactor-dirs-recorded-on-entry-c1", F, SEED_OLD, SEED_NEW, "C21.1",
+      edits=[(F, TRAV_OLD, TRAV_GEN.replace(SLIP_OLD, SLIP_DIRS_ON_ENTRY))]),
+    # the same slip in the callback-chain shape: the per-directory step records the directory it enters
+    M("chain-dirs-recorded-on-entry", F, SLIP_OLD, SLIP_DIRS_ON_ENTRY, "C21.9",
+      edits=[(F, "        d = defer.maybeDeferred(walker.add_node, node, path)\n",
+              "        found.add(node.get_verify_cap())\n        d = defer.maybeDeferred(walker.add_node, node, path)\n")]),
+    # every child recorded when it is visited (inside the visit callback), none on discovery
+    M("generator-refactor-recorded-when-visited", F, SEED_OLD, SEED_NEW, "C21.9",
+      edits=[(F, TRAV_OLD, TRAV_GEN.replace("            found.add(verifier)\n", "").replace(
+          "            yield walker.add_node(child, childpath)\n",
+          "            found.add(child.get_verify_cap())\n            yield walker.add_node(child, childpath)\n"))]),
+    # a third queue that the classification rules do not know: mutable files are set aside without being recorded
+    M("mutable-files-queued-unrecorded", F,
+      "            found.add(verifier)\n            if IDirectoryNode.providedBy(child):\n",
+      "            if child.is_mutable() and not IDirectoryNode.providedBy(child):\n"
+      "                filekids.insert(0, (child, childpath))\n                continue\n"
+      "            found.add(verifier)\n            if IDirectoryNode.providedBy(child):\n", "C21.9"),
+    # the other rules decide the generator shape too
+    M("generator-refactor-queues-swapped", F, SEED_OLD, SEED_NEW, "C21.1",
+      edits=[(F, TRAV_OLD, TRAV_GEN.replace("        filekids, dirkids = self._deep_traverse_new_children(",
+                                            "        dirkids, filekids = self._deep_traverse_new_children("))]),
+    M("generator-refactor-root-not-recorded", F, SEED_OLD, SEED_NEW, "C21.2",
+      edits=[(F, TRAV_OLD, TRAV_GEN.replace("        found.add(node.get_verify_cap())\n", ""))]),
+    M("generator-refactor-root-recorded-after-listing", F, SEED_OLD, SEED_NEW, "C21.2",
+      edits=[(F, TRAV_OLD, TRAV_GEN.replace("        found.add(node.get_verify_cap())\n", "").replace(
+          "        for i, (child, childpath) in enumerate(filekids):\n            yield walker",
+          "        found.add(node.get_verify_cap())\n        for i, (child, childpath) in enumerate(filekids):\n            yield walker"))]),
+    M("generator-refactor-subtree-not-awaited", F, SEED_OLD, SEED_NEW, "C21.3",
+      edits=[(F, TRAV_OLD, TRAV_GEN.replace("            yield self._deep_traverse_dirnode(child, childpath,",
+                                            "            self._deep_traverse_dirnode(child, childpath,"))]),
+    M("generator-refactor-found-copied-per-subtree", F, SEED_OLD, SEED_NEW, "C21.3",
+      edits=[(F, TRAV_OLD, TRAV_GEN.replace("                                              walker, monitor, found)\n",
+                                            "                                              walker, monitor, set(found))\n"))]),
+    M("generator-refactor-lists-the-root", F, SEED_OLD, SEED_NEW, "C21.2",
+      edits=[(F, TRAV_OLD, TRAV_GEN.replace("        children = yield node.list()\n", "        children = yield self.list()\n"))]),
+    M("generator-refactor-leaf-returns-before-files", F, SEED_OLD, SEED_NEW, "C21.8",
+      edits=[(F, TRAV_OLD, TRAV_GEN.replace(
+          "        for i, (child, childpath) in enumerate(filekids):\n            yield walker",
+          "        if not dirkids:\n            return\n        for i, (child, childpath) in enumerate(filekids):\n            yield walker"))]),
+    M("benign-generator-refactor-entry-tuple", F, SEED_OLD, SEED_NEW, None,
+      edits=[(F, TRAV_OLD, TRAV_GEN.replace(SLIP_OLD, """            if verifier is not None:
+                found.add(verifier)
+            entry = (child, childpath)
+            if IDirectoryNode.providedBy(child):
+                dirkids.append(entry)
+            else:
+                filekids.append(entry)
+"""))]),
 ]
